@@ -123,7 +123,7 @@ def _json_config(spec, d: D, rich_guards: bool, hostile: bool):
         for fam, key, i, t in state_transitions(s):
             if t.get("null"):
                 continue
-            if rich_guards and t.get("guard") is not None and d.chance(60):
+            if rich_guards and t.get("guard") is not None and d.chance(35):
                 g = t["guard"]
                 kind = d.pick(["param", "in", "and", "or", "not"])
                 if kind == "param":
@@ -134,12 +134,43 @@ def _json_config(spec, d: D, rich_guards: bool, hostile: bool):
                     t["guard"] = {"k": "not", "arg": g, "sp": {"form": d.pick(["children", "params.guard"])}}
                 else:
                     t["guard"] = {"k": kind, "args": [g, {"k": "const", "val": True}], "sp": {"form": d.pick(["children", "params.guards"])}}
+            elif t.get("guard") is not None and d.chance(45):
+                # composites nested inside composites of the same operator (not(not g), and(and ..))
+                # in a drawn operand spelling
+                g = t["guard"]
+                tr = {"k": "const", "val": True}
+                f = {"form": d.pick(["params.guards", "params.guards", "children"]) if rich_guards else "params.guards"}
+                kind = d.pick(["and", "or", "not", "notnot", "andand", "oror", "notand"])
+                if kind == "not":
+                    t["guard"] = {"k": "not", "arg": g, "sp": f}
+                elif kind == "notnot":
+                    t["guard"] = {"k": "not", "arg": {"k": "not", "arg": g, "sp": f}, "sp": f}
+                elif kind == "andand":
+                    t["guard"] = {"k": "and", "args": [{"k": "and", "args": [g, tr], "sp": f}, tr], "sp": f}
+                elif kind == "oror":
+                    t["guard"] = {"k": "or", "args": [{"k": "or", "args": [g, dict(tr, val=False)], "sp": f}, dict(tr, val=False)], "sp": f}
+                elif kind == "notand":
+                    t["guard"] = {"k": "not", "arg": {"k": "and", "args": [g, tr], "sp": f}, "sp": f}
+                else:
+                    t["guard"] = {"k": kind, "args": [g, tr], "sp": f}
             if rich_guards and d.chance(15):
                 t.setdefault("actions", []).append({"k": "user", "name": "notify", "params": {"level": d.int(1, 3)}})
     r = Renderer(spec, Recorder())
     cfg = r.config()
     cfg.pop("maxIterations", None)
     cfg = _identifier_names(cfg)
+
+    # an invoke id that happens to equal its own state's path (dotted, or the bare key)
+    def ids(node, path):
+        inv = node.get("invoke")
+        for one in (inv if isinstance(inv, list) else [inv] if isinstance(inv, dict) else []):
+            if isinstance(one, dict) and path and d.chance(35):
+                one["id"] = d.pick([".".join(path), path[-1], ".".join(path)])
+        for k, c in (node.get("states") or {}).items():
+            if isinstance(c, dict):
+                ids(c, path + [k])
+
+    ids(cfg, [])
     # named delays only exist in logic: keep numeric ones (the IR models both, named need MachineLogic.delays)
     if hostile:
         names = [d.pick(HOSTILE) for _ in range(3)]
@@ -378,6 +409,11 @@ def check_case(case) -> CaseResult:
                     parts = [x.split("[")[0] for x in d_[0].split("/") if x]
                     field = parts[2] if len(parts) > 2 else parts[-1]
                     sub = parts[-1] if parts[-1] in ("guard", "params", "target", "actions", "type", "children") else ""
+                    if sub == "children" and d_[2] == "<absent>":
+                        sub = "children-dropped"   # the emitter wrote the composite without its operands (F21b)
+                    if sub == "target" and isinstance(d_[1], str) and isinstance(d_[2], str) and d_[2].startswith(d_[1] + ".") \
+                            and d_[2].split(".")[-1] == d_[1].split(".")[-1]:
+                        sub = "target-resolved-to-same-key-child"
                     res.violate(f"rebuilt-machine-differs|{template}|{field}{'/' + sub if sub else ''}|{label}",
                                 {"path": d_[0], "json": d_[1], "generated": d_[2], "cli_said": [l for l in text.splitlines() if "Verified" in l][:1]})
         else:
@@ -427,7 +463,9 @@ def _name_position(cfg, err):
                 walk(v, path)
         elif o == name:
             keys = [k for k in path if k in ("onDone", "onError", "after", "invoke", "always", "on", "entry", "exit")]
-            if "invoke" in keys:
+            if "children" in path or "guards" in path or (path and path[-1] == "guard" and "params" in path):
+                found.add("composite-operand")   # the name is an operand of and/or/not
+            elif "invoke" in keys:
                 found.add("invoke-handler")
             elif "onDone" in keys:
                 found.add("state-onDone")
